@@ -18,6 +18,9 @@ open Proto Pdf
       sstate <edges> <xs> <ws> <op>*                           -> normalised histogram after init and each op
              op = A<xs> (add_events) | R (reset);  ERR = constructor raises
       ttrials <box|gauss> <edges> <ts> <te> <sigma> <erfx> <erfy> <times>*  -> pd list per trial (one object)
+      tstate2 <ts list> <te list> <edges> <prof> <op>*         -> what get_pd returns at each G (fixed code)
+             op = L<edges> | Q<k> | X<k> (profile mutated outside) | M<edges> (interval array replaced
+                  behind the PDF) | I<times> (initialize_for_new_trial) | G (get_pd)
       tstate <ts list> <te list> <edges> <prof> <op>*          -> S after init and after each op
              op = P<k> (set_params -> profile k) | Q<k> (time_flux_profile = k) | L<edges>
 -/
@@ -85,13 +88,8 @@ def answer (line : String) : String :=
   | ["epd", k, eE, eD, xs, ys, ms, ps, qx, qy] =>
       let (eE, eD) := (pList pF eE, pList pF eD)
       let evs := mkEvs (pList pF xs) (pList pF ys) (pList pF ms) (pList pF ps)
-      let bands := (List.range (eD.length - 1)).map (energyBand (pList pF k) eE eD evs)
       fListD id (((pList pF qx).zip (pList pF qy)).map (fun q =>
-        match lookup eE q.1, lookup eD q.2 with
-        | some i, some j => match bands[j]? with
-          | some b => fO b[i]?
-          | none => "ERR"
-        | _, _ => "ERR"))
+        fO (energyPd (pList pF k) eE eD evs q.1 q.2)))
   | ["elook", es, x] =>
       let (es, x) := (pList pF es, pF x)
       let l := match lookup es x with
@@ -129,6 +127,31 @@ def answer (line : String) : String :=
   | ["spd", vs] => fListD fF ((pList pF vs).map spatialPd)
   | ["psf", ss, ps] => fListD fF (((pList pF ss).zip (pList pF ps)).map (fun q => psfPd q.1 q.2))
   | ["ray", ss, ps] => fListD fF (((pList pF ss).zip (pList pF ps)).map (fun q => rayleighPd q.1 q.2))
+  | "tstate2" :: tss :: tes :: es :: p :: ops =>
+      let (tss, tes) := (pList pF tss, pList pF tes)
+      let table := boxTable tss tes
+      let val : Nat → Float → Float := fun k => match tss[k]?, tes[k]? with
+        | some ts, some te => boxVal ts te
+        | _, _ => fun _ => 0.0
+      let rec go2 (s : TState2 Float) : List String → List String
+        | [] => []
+        | o :: rest =>
+          let arg := (o.drop 1).toString
+          if o == "G" then
+            let out := match tGet true table val s with
+              | some l => fListD fF l
+              | none => "ERR"
+            out :: go2 (tStep2 true table val s .getPd) rest
+          else
+            let op : TOp2 Float :=
+              if o.startsWith "L" then .setLivetime (pairs arg)
+              else if o.startsWith "M" then .livetimeMutated (pairs arg)
+              else if o.startsWith "Q" then .setProfile arg.toNat!
+              else if o.startsWith "X" then .profileMutated arg.toNat!
+              else .initTrial (pList pF arg)
+            go2 (tStep2 true table val s op) rest
+      let outs := go2 (tInit2 table (pairs es) p.toNat!) ops
+      if outs.isEmpty then "none" else String.intercalate " " outs
   | "tstate" :: tss :: tes :: es :: p :: ops =>
       stateAnswer (pList pF tss) (pList pF tes) (pairs es) p.toNat! ops
   | _ => "bad-op"
